@@ -1,6 +1,7 @@
 #!/bin/bash
 # for each harmless refactoring: regenerate Trans.lean from the patched tree into a scratch copy of the Lean project and rebuild all Trans modules
 export GOFLAGS=-mod=mod GOPROXY=off GOSUMDB=off GOTOOLCHAIN=local
+[ -d /tmp/refac ] || git -C /repo worktree add --detach /tmp/refac HEAD -q  # scratch worktree of /repo (remove with: git -C /repo worktree remove --force /tmp/refac)
 W=/tmp/refac-lean; rm -rf $W; mkdir -p $W; rsync -a --exclude .lake/build/ir /verif/lean/ $W/
 MODS="Gws.Props.TransFW Gws.Props.TransReadLoop Gws.Props.TransDequeCore Gws.Props.TransDequeOps Gws.Props.TransDequeRefine Gws.Props.TransNegoParse Gws.Props.TransFile Gws.Props.TransSend Gws.Props.TransFrame Gws.Props.TransReader Gws.Props.TransParse Gws.Props.TransFragment Gws.Props.TransControl Gws.Props.TransEmit Gws.Props.TransStep Gws.Props.TransClose Gws.Props.TransWindow Gws.Props.TransNego Gws.Props.TransQueue Gws.Props.TransLimited Gws.Props.TransWriter Gws.Props.TransCompress Gws.Props.TransMap Gws.Props.TransHandshake Gws.Props.TransProps"
 for k in ${HARMLESS:-1 2 3 4 5 6 7 8 9 10 11 12 13 14 15 16 17 18 19 20 21 22 23 24 25 26 27 28 29 30}; do
